@@ -612,9 +612,28 @@ func c19Select(r *Run, sel string, f gts.Feature) {
 		return
 	}
 	if !c19PropsWf(f.Props) {
-		r.count("selector/raw props rows(correspondence only)")
-		r.eval("sel|"+line, false)
-		return
+		// raw rows (a name held by two rows, a row without value): a named clause reads such a
+		// table through Props.Get (first row of that name) and is compared with the model only;
+		// an unnamed clause "needs some value of any qualifier" and that reading is the same
+		// for raw rows, so selectors made of unnamed clauses keep their oracle
+		_, cs := c19SpecParse(sel)
+		unnamedOnly := len(cs) > 0
+		for _, c := range cs {
+			if c.name != "" {
+				unnamedOnly = false
+			}
+		}
+		for _, row := range f.Props {
+			if len(row) == 0 {
+				unnamedOnly = false
+			}
+		}
+		if !unnamedOnly {
+			r.count("selector/raw props rows(correspondence only)")
+			r.eval("sel|"+line, false)
+			return
+		}
+		r.count("selector/raw props rows, unnamed clauses")
 	}
 	want, werr := c19SpecSelector(sel, f)
 	_, cs := c19SpecParse(sel)
